@@ -18,6 +18,12 @@ func (c *connLimiter) update(maxConn int32) {
 	atomic.StoreInt32(&c.lim, maxConn)
 }
 
+// occupy counts n connections that were admitted before the limiter existed.
+func (c *connLimiter) occupy(n int32) {
+	atomic.AddInt32(&c.tmp, n)
+	atomic.AddInt32(&c.now, n)
+}
+
 func (c *connLimiter) take() bool {
 	x := atomic.AddInt32(&c.tmp, 1)
 	if x <= atomic.LoadInt32(&c.lim) {
